@@ -479,7 +479,10 @@ def fmt_C12(c):
     if k == "B":
         return "B %d %s" % (c[1], hexs(c[2])), "(B %d %s)" % (c[1], sxb(c[2]))
     if k == "S":
-        return "S %d %d %d %s" % (c[1], c[2], c[3], hexs(c[4])), "(S %d %d %d %s)" % (c[1], c[2], c[3], sxb(c[4]))
+        # the third way the same bytes reach the mock: 0 prepared before the declaration, 1 produced after it,
+        # 2 refreshed between two calls served by one always_expect (same model case: the bytes at the call count)
+        late = (c[1] * 7 + c[2] * 3 + c[3]) % 3
+        return "S %d %d %d %s %d" % (c[1], c[2], c[3], hexs(c[4]), late), "(S %d %d %d %s)" % (c[1], c[2], c[3], sxb(c[4]))
     if k == "C":
         return "C %d %d %d %d" % c[1:], "(C %d %d)" % (c[1], c[4])
 
